@@ -74,6 +74,8 @@ fn parse_opts() -> Opts {
 /// tree makes most soft stops hang, and every hang costs its full deadline)
 static ENOUGH: AtomicBool = AtomicBool::new(false);
 static FAILING_RUNS: AtomicUsize = AtomicUsize::new(0);
+/// fault runs not executed because their addresses were in use by another process
+static SKIPPED: AtomicUsize = AtomicUsize::new(0);
 const MAX_FAILING_RUNS: usize = 48;
 
 struct Viol {
@@ -133,7 +135,18 @@ fn run_one(idx: u64, line: &Value, opts: &Opts, port: u16, stats: &mut Stats) ->
     let hist = line["hist"].as_array().cloned().unwrap_or_default();
     let state = &line["state"];
     let listeners: Vec<String> = state["cfg"]["lst"].as_object().map(|o| o.keys().cloned().collect()).unwrap_or_default();
-    let ad = Addrs::for_index(opts.index_base + idx, port);
+    let ad = if opts.faults {
+        // a busy address would look like a hold the spec knows nothing about: take free ones or skip
+        match wctl::free_addrs_for(opts.index_base + idx, port) {
+            Some(ad) => ad,
+            None => {
+                SKIPPED.fetch_add(1, Ordering::SeqCst);
+                return out;
+            }
+        }
+    } else {
+        Addrs::for_index(opts.index_base + idx, port)
+    };
     let name = format!("w{}", opts.index_base + idx);
     let quiet = Duration::from_millis(opts.wait_ms);
 
@@ -541,7 +554,7 @@ fn main() {
         "aborted": ENOUGH.load(Ordering::SeqCst), "violations": n_viol, "classes": classes,
         "requests": totals[0].load(Ordering::Relaxed), "responses": totals[1].load(Ordering::Relaxed),
         "probes": totals[2].load(Ordering::Relaxed), "hook_events": totals[3].load(Ordering::Relaxed),
-        "soft_stops": totals[4].load(Ordering::Relaxed), "hooked": hooked,
+        "soft_stops": totals[4].load(Ordering::Relaxed), "hooked": hooked, "skipped": SKIPPED.load(Ordering::SeqCst),
         "open_fds": std::fs::read_dir("/proc/self/fd").map(|d| d.count()).unwrap_or(0),
         "wall_s": t0.elapsed().as_secs_f64(), "samples": samples,
     }));
